@@ -7,7 +7,7 @@ d=/var/tmp/neutry.$$; ev=/var/tmp/neuev.$$
 git -C /repo worktree add -q --detach $d HEAD || exit 2
 mkdir -p $ev; cp /verif/known_findings.json $ev/
 if ! git -C $d apply "$patch" 2>/dev/null; then echo "PATCH DOES NOT APPLY"; git -C /repo worktree remove --force $d; rm -rf $ev; exit 3; fi
-out=$(/verif/bin/verifcheck -repo $d -verif $ev -p "$props" 2>&1); rc=$?
+out=$(${VERIFCHECK:-/verif/bin/verifcheck} -repo $d -verif $ev -p "$props" 2>&1); rc=$?
 echo "$out" | grep -E "^(VIOLATION|UNDECIDED|panic)" | cut -c1-500
 git -C /repo worktree remove --force $d; rm -rf $ev
 exit $rc
